@@ -1,8 +1,54 @@
-import TypstyleModel.Props.C01
-/-! C10 — (partial) see DESIGN.md §4 C10. Foundation: layout soundness and the post-pass. -/
+import TypstyleModel.Props.C07
+/-! C10 — literal content is preserved exactly (printer side; F4 — the post-pass strips blanks
+before a line feed inside a multi-line literal — is a genuine counterexample to the end-to-end
+statement and is a known finding). -/
 namespace Typstyle
 open Pretty
 
-theorem C10_layout_sound (w : Nat) (d : Doc) : Lay .brk d (best w 0 [⟨0, .brk, d⟩]) := pretty_lay w d
+/-- The kinds whose leaf text the printer copies as one atom. -/
+def Kind.isCopiedLeaf : Kind → Bool
+  | .linebreak | .escape | .shorthand | .smartQuote | .link | .label | .ident | .bool | .int | .float
+  | .numeric | .str | .mathText | .mathIdent | .mathAlignPoint | .mathShorthand => true
+  | _ => false
+
+/-- T10.1: strings (with their embedded line breaks, escapes and blanks), numbers with units and
+radix, identifiers, labels, links, escapes … are converted to a single `tok` atom holding exactly the
+leaf's text, in every context. -/
+theorem C10_literal_is_copied (e : Env) (r : Rec) (ctx : Ctx) (n : ANode) (h : n.kind.isCopiedLeaf = true) :
+    convExprImpl e r ctx n = pure (e.tok n.text) := by
+  unfold convExprImpl
+  cases hk : n.kind <;> simp_all [Kind.isCopiedLeaf]
+
+/-- A markup text leaf likewise. -/
+theorem C10_text_is_copied (e : Env) (r : Rec) (ctx : Ctx) (n : ANode) (h : n.kind = .text) :
+    convExprImpl e r ctx n = pure (e.tok n.intoText) := by
+  unfold convExprImpl; simp [h]
+
+/-- The atom is the text itself, at every indent unit and in every layout (hence at every width):
+the renderer cannot re-space, re-break or re-indent anything inside a literal. -/
+theorem C10_token_is_one_atom (e : Env) (s : String) (hs : s.isEmpty = false) (u : Nat) (m : Mode) (xs : List Atom)
+    (h : Lay m ((e.tok s).fam u) xs) : xs = [.txt s .tok] := by
+  simp only [Env.tok, Twin.fam_mkText, mkText, hs] at h
+  cases h
+  rfl
+
+/-- T10.2 (inline raw with several lines): emitted verbatim as a whole. -/
+theorem C10_multiline_inline_raw_is_verbatim (e : Env) (n : ANode)
+    (h : (!(((firstWhere n (·.kind == .rawDelim)).map (·.text.utf8ByteSize)).getD 0 ≥ 3 &&
+            n.children.any (fun c => c.kind == .rawTrimmed && c.text.toList.any isNewlineChar)) &&
+          (n.children.filter (·.kind == .text)).length > 1) = true) :
+    convRaw e n = e.verb n.intoText := by
+  unfold convRaw
+  simp only [h, if_true]
+
+/-- T10.3 (what the post-pass can touch): per line, the characters that are not white space are kept
+in order; only blanks before a line end are removed (this is exactly finding F4 for a literal whose
+line ends in a blank). -/
+theorem C10_strip_only_removes_line_end_blanks (l : List Char) :
+    (trimEndL l).filter (fun c => !isWs c) = l.filter (fun c => !isWs c) ∧ (trimEndL l).length ≤ l.length := by
+  refine ⟨trimEndL_filter l, ?_⟩
+  unfold trimEndL
+  have := (List.dropWhile_sublist isWs (l := l.reverse)).length_le
+  simpa using this
 
 end Typstyle
